@@ -156,4 +156,5 @@ def init(table, reload=False):
     table.properties.append('crystal_structure')
 
     for Z, struct in enumerate(crystal_structures):
-        table[Z].crystal_structure = struct
+        # one dictionary per table: a private table must not share mutable data
+        table[Z].crystal_structure = dict(struct) if struct is not None else None
